@@ -51,7 +51,7 @@ Print Assumptions C06_no_swallow_datum.
 
 (* the three sources give the same result on everything C01 covers *)
 Theorem C06_sources_agree_partial : forall ryu alpha fast std_parse k1 k2 v,
-  rt_ok v -> rdepth v <= 127 ->
+  rt_ok alpha v -> rdepth v <= 127 ->
   from_trait default_ro alpha fast std_parse k1 (bytes_events (print0 ryu v)) =
   from_trait default_ro alpha fast std_parse k2 (bytes_events (print0 ryu v)).
 Proof.
